@@ -62,14 +62,14 @@ class Arr:
 
 
 class Closure:
-    """A lambda object: its call operator and the frame it was created in (captures are read through that frame: by-reference
-    semantics for every capture, which equals by-copy semantics unless the captured variable changes between the lambda's
-    creation and its call or the lambda is `mutable` - neither is accepted silently: see e_lambda)."""
-    __slots__ = ("fid", "env")
+    """A lambda object: its call operator, the frame it was created in (by-reference captures and `this` are read through
+    that frame) and private copies of the by-copy captures taken when the lambda expression is evaluated."""
+    __slots__ = ("fid", "env", "copies")
 
-    def __init__(self, fid, env):
+    def __init__(self, fid, env, copies=None):
         self.fid = fid
         self.env = env
+        self.copies = copies or {}     # ("local", id) / ("parm", fn, i) -> location holding the by-copy capture
 
     def __repr__(self):
         return "Closure(%s)" % self.fid
@@ -437,6 +437,7 @@ class Evaluator:
                     clo = None
                 if isinstance(clo, Closure):
                     frame["env"] = clo.env
+                    frame["copies"] = clo.copies
             for p, a in zip(f["params"], args):
                 pt = self.F.T(p["t"])
                 if isinstance(a, LV):
@@ -811,12 +812,18 @@ class Evaluator:
         owner = e.get("fn")
         fr = frame
         while owner is not None and fr["f"].get("id") != owner and fr.get("env") is not None:
+            cp = fr.get("copies", {}).get(("parm", owner, e["i"]))
+            if cp is not None:
+                return cp                      # captured by copy
             fr = fr["env"]                     # a captured parameter of an enclosing function
         return fr["params"][e["i"]]
 
     def e_local(self, e, frame):
         fr = frame
         while e["i"] not in fr["locals"]:
+            cp = fr.get("copies", {}).get(("local", e["i"]))
+            if cp is not None:
+                return cp                      # captured by copy
             if fr.get("env") is None:
                 raise Inconclusive("use of unknown local " + e["n"])
             fr = fr["env"]                     # a captured local of an enclosing function
@@ -1217,7 +1224,21 @@ class Evaluator:
         return self.eval(e["e"], frame)
 
     def e_lambda(self, e, frame):
-        return Closure(e.get("f"), frame)
+        copies = {}
+        for c in e.get("caps", []):
+            if c.get("by") != "copy" or "k" not in c:
+                continue
+            try:
+                if c["k"] == "local":
+                    src = self.e_local({"i": c["i"], "n": c.get("n", "?")}, frame)
+                    key = ("local", c["i"])
+                else:
+                    src = self.e_parm({"i": c["i"], "fn": c.get("fn"), "d": 0}, frame)
+                    key = ("parm", c.get("fn"), c["i"])
+            except (Inconclusive, IndexError, KeyError):
+                continue
+            copies[key] = self.new_loc(self.load(src) if isinstance(src, LV) else src, "cap_" + c.get("n", ""))
+        return Closure(e.get("f"), frame, copies)
 
     def e_throw(self, e, frame):
         raise Inconclusive("throw expression")
